@@ -22,22 +22,24 @@ TARGETS = {
                       'Inquiry': ['__init__']},
     'vakt/checker.py': {'RegexChecker': ['fits'], 'StringChecker': ['fits'], 'StringExactChecker': ['compare'],
                         'StringFuzzyChecker': ['compare'], 'RulesChecker': ['fits', '_check_satisfied']},
-    'vakt/parser.py': {None: ['get_tag_indices']},
-    'vakt/policy.py': {'Policy': ['_calculate_type', '_check_field_type', '__setattr__', 'from_json']},
+    'vakt/parser.py': {None: ['get_tag_indices', 'compile_regex']},
+    'vakt/policy.py': {'Policy': ['_calculate_type', '_check_field_type', '__setattr__', 'from_json', '__init__']},
     'vakt/audit.py': {'PoliciesNopMsg': ['__str__'], 'PoliciesUidMsg': ['__str__'], 'PoliciesDescriptionMsg': ['__str__'],
                       'PoliciesCountMsg': ['__str__']},
-    'vakt/cache.py': {'EnfoldCache': ['add', 'update', 'delete', 'get', 'get_all', 'populate']},
-    'vakt/storage/observable.py': {'ObservableMutationStorage': ['add', 'update', 'delete', 'get', 'get_all']},
+    'vakt/cache.py': {'EnfoldCache': ['add', 'update', 'delete', 'get', 'get_all', 'populate', 'retrieve_all']},
+    'vakt/storage/observable.py': {'ObservableMutationStorage': ['add', 'update', 'delete', 'get', 'get_all', 'retrieve_all']},
     'vakt/storage/memory.py': {'MemoryStorage': ['add', 'get', 'get_all', 'find_for_inquiry', 'update', 'delete']},
     'vakt/storage/abc.py': {'Storage': ['retrieve_all', '_check_limit_and_offset']},
     'vakt/storage/migration.py': {'MigrationSet': ['_get_migrations', 'up', 'down']},
     'vakt/storage/redis.py': {'RedisStorage': ['add', 'get', 'update', 'delete', 'get_all', 'find_for_inquiry', '__feed_policies']},
-    'vakt/storage/mongo.py': {'MongoStorage': ['add', 'get', 'update', 'delete', 'get_all', '__feed_policies']},
+    'vakt/storage/mongo.py': {'MongoStorage': ['add', 'get', 'update', 'delete', 'get_all', '__feed_policies'],
+                              'MongoMigration': ['_each_doc']},
     'vakt/storage/sql/__init__.py': {'SQLStorage': ['add', 'get', 'update', 'delete', 'get_all']},
     'vakt/rules/operator.py': {'*': ['satisfied']}, 'vakt/rules/list.py': {'*': ['satisfied']},
     'vakt/rules/logic.py': {'*': ['satisfied']}, 'vakt/rules/inquiry.py': {'*': ['satisfied']},
     'vakt/rules/string.py': {'Equal': ['satisfied'], 'PairsEqual': ['satisfied'], 'StartsWith': ['satisfied'],
-                             'EndsWith': ['satisfied'], 'Contains': ['satisfied']},
+                             'EndsWith': ['satisfied'], 'Contains': ['satisfied'], 'RegexMatch': ['satisfied']},
+    'vakt/rules/net.py': {'CIDR': ['satisfied']},
 }
 
 
